@@ -10,6 +10,10 @@ CHECKS = {
         'in the thorough tier the graph closes (all 3^6 contents x 36 parameter pairs, every internal state reachable by any history of any length), so for this universe history-independence of Hash/Len/Elements/Ranges is decided completely, not sampled.',
    note='ids limited to the 6-id universe and heads to 2 values; reference = same implementation filled in one Set call (both orders); blake3/xxhash/skiplist trusted', ref='5 C08'),
 }
+CHECKS['C16'] = dict(level='model_checking', engine='sched',
+   technique='stateless schedule exploration (DFS over scheduling decisions, preemption- and deviation-bounded) of the real ocache under a controlled scheduler (testing/synctest + sync shim)',
+   text='Every schedule (preemption bound 2/3, environment-deviation bound 1/2) of 2-4 concurrent Get/Pick/Add/Remove/RemoveSame/TryRemove/GC/Close/DoLockedIfNotExists calls on 1-2 ids, from an empty and a preloaded cache, is executed on the real cache with every mutex acquisition and every load/close/try-close step as a scheduling point; the event log of each complete execution is checked against the single-live-instance, loaded-before-returned, no-double-close, nothing-left-open-after-shutdown, no-removed-instance-returned, no-panic and no-deadlock oracles.',
+   note='interleaving granularity = lock acquisitions + harness blocking points (unsynchronised accesses are race-detector territory); RWMutex writer preference not modelled; timeouts never fire; map iteration order over two ids is not enumerated', ref='5 C16')
 NOT_YET = 'check not built yet (work in progress, see DESIGN.md section 10)'
 m = {
  'version': 1,
